@@ -76,11 +76,16 @@ pub fn layout_oracles(key: Option<usize>, lay: &Layout, built: &Built, real_debu
         if i.is_tl {
             continue;
         }
-        let want = expected_outcome(&i.name, &i.deps, &known);
+        let mut want = expected_outcome(&i.name, &i.deps, &known);
+        if i.t == 0 && want == "placed" {
+            // a well-formed registration of a system whose own `running_time()` panics: the
+            // panic is the user's, not the builder's; the name is taken all the same
+            want = "callback-panic".to_string();
+        }
         if want != i.outcome {
             bad("C18", format!("registering tag {} (name {:?}, deps {:?}) gave `{}`, the property demands `{}`", t, i.name, i.deps, i.outcome, want));
         }
-        if i.placed && !i.name.is_empty() {
+        if (i.placed || i.outcome == "callback-panic") && !i.name.is_empty() {
             known.insert(i.name.clone(), *t);
         }
     }
